@@ -32,6 +32,34 @@ Theorem C16_decode : forall cfg cd hexbm b d, loads cfg cd hexbm b = Ok d ->
 Proof. exact c16_decode. Qed.
 Print Assumptions C16_decode.
 
+(* the same whatever python type the element is configured with (int, long, decimal, datetime): the entry is the typed
+   conversion of the MASKED text, or of the nine-character prefix - a function of those, never of the clear value; when
+   the conversion fails (a masked value is not a number) decoding as a whole fails, so nothing is returned at all *)
+Theorem C16_decode_typed : forall cfg cd hexbm b d, loads cfg cd hexbm b = Ok d ->
+  exists mti frames ess,
+    let data := skipn (if hexbm then 36 else 20) b in
+    tiles frames 0 (length data) /\
+    d = fold_left dupdate ess [(KMTI, VStr mti)] /\
+    Forall2 (fun f es => forall c, cfg_get cfg (fr_bit f) = Some c ->
+               forall clear, decode cd (slice (fr_off f + fr_plen f) (fr_end f) data) = Ok clear ->
+               (f_proc c = PPAN -> exists v, string_to_pytype (mask clear star) c = Ok v /\ es = [(KDE (fr_bit f), v)]) /\
+               (f_proc c = PPANPREFIX -> exists v, string_to_pytype (firstn 9 clear) c = Ok v /\ es = [(KDE (fr_bit f), v)])) frames ess.
+Proof. exact c16_decode_typed. Qed.
+Print Assumptions C16_decode_typed.
+
+(* a PAN-PREFIX element of python type int: 4444555566667777 comes back as the NUMBER 444455556; with PAN masking the
+   same element is refused (44445555******7777 is not a number) *)
+Example C16_typed_example :
+  match codec_named [108;97;116;105;110;95;49]%N with
+  | Some cd =>
+    let b := map byte_of_N ([49;49;52;52] ++ [192] ++ repeat 0%N 15 ++ [49;54; 52;52;52;52;53;53;53;53;54;54;54;54;55;55;55;55])%N in
+    loads [(2, mkfc LLVAR (Some 0) PTInt [] PPANPREFIX D43None)] cd false b
+      = Ok [(KMTI, VStr [49;49;52;52]%N); (KDE 2, VInt 444455556)] /\
+    loads [(2, mkfc LLVAR (Some 0) PTInt [] PPAN D43None)] cd false b = Raise EData
+  | None => False
+  end.
+Proof. vm_compute. auto. Qed.
+
 Example C16_mask_example :
   mask (map (fun d => dch d) [5;1;2;3;4;5;6;7;8;9;0;1;2;3;4;6]%N) star
   = map N.of_nat [53;49;50;51;52;53;42;42;42;42;42;42;50;51;52;54].
